@@ -2,7 +2,7 @@
 #pragma once
 #include "interp.hpp"
 
-struct GSlot { int kind = 0; int life = L_RAW; bool keyed = false, tweaked = false; int cpu = 1; unsigned since_reset = 0; Bytes prev_tweak; };
+struct GSlot { int kind = 0; int life = L_RAW; bool keyed = false, tweaked = false; int cpu = 1; unsigned since_reset = 0; Bytes prev_tweak; Op last_key; bool have_last_key = false; Bytes last_ctr; };
 
 struct Gen {
     Rng r;
@@ -74,10 +74,16 @@ struct Gen {
     void zero(int s) { emit(OP_ZERO, s); if (g[s].life != L_INIT) g[s].life = L_ZEROED; }
     void setkey(int s, unsigned size, bool tweaked = false, int rounds = 0, int mode = 1) {
         Op &o = emit(tweaked ? OP_SETTKEY : OP_SETKEY, s); o.size = size; o.a = rand_bytes(size); o.rounds = rounds; o.mode = mode;
+        g[s].last_key = o; g[s].have_last_key = true;
         if (!is_obj(g[s].kind) || g[s].life == L_INIT) { g[s].keyed = true; g[s].tweaked = tweaked; g[s].prev_tweak.assign(kind_bs(g[s].kind), 0); }
     }
     void valid_key(int s, bool primary_only, int want_tweaked = -1) {
         int k = g[s].kind; unsigned bs = kind_bs(k);
+        if (g[s].have_last_key && want_tweaked < 0 && r.chance(1, 6)) {     // exactly the same key (and rounds, mode) again
+            Op o = g[s].last_key; o.place = rand_place(); p.ops.push_back(o);
+            if (!is_obj(k) || g[s].life == L_INIT) { g[s].keyed = true; g[s].tweaked = o.code == OP_SETTKEY; g[s].prev_tweak.assign(bs, 0); }
+            return;
+        }
         if (is_mantis(k)) { setkey(s, 16, false, r.range(5, 8), r.below(2)); return; }
         bool can_tw = (k == TK128 || k == TK64 || k == CTR128 || k == CTR64);
         bool tw = can_tw && (want_tweaked < 0 ? r.chance(1, 2) : want_tweaked != 0);
@@ -112,8 +118,13 @@ struct Gen {
         unsigned bs = kind_bs(g[s].kind);
         Op &o = emit(OP_SETCTR, s);
         if (style < 0) style = r.below(10);
-        if (style == 0) { o.flags |= F_NULLA; o.size = r.chance(1, 2) ? 0 : r.below(bs + 1); }
-        else o.a = counter_value(bs, o.size);
+        if (style == 0) { o.flags |= F_NULLA; o.size = r.chance(1, 2) ? 0 : r.below(bs + 1); g[s].last_ctr.assign(bs, 0); }
+        else if (style == 9 && g[s].last_ctr.size() == bs) {
+            // packets numbered consecutively: continue where the previous packet stopped (or one block off)
+            Bytes c = g[s].last_ctr; unsigned adv = (g[s].since_reset + bs - 1) / bs; adv += r.below(4) == 0 ? 1 : 0; if (r.below(6) == 0 && adv) --adv;
+            for (int q = (int)bs - 1; q >= 0 && adv; --q) { adv += c[q]; c[q] = (uint8_t)adv; adv >>= 8; }
+            o.a = c; o.size = bs; g[s].last_ctr = c;
+        } else { o.a = counter_value(bs, o.size); g[s].last_ctr.assign(bs, 0); if (o.size) memcpy(g[s].last_ctr.data() + bs - o.size, o.a.data(), o.size); }
         g[s].since_reset = 0;
     }
     void enc(int s, unsigned n) {
@@ -123,7 +134,16 @@ struct Gen {
     void par(int s, unsigned nblocks, bool dec) {
         int k = g[s].kind; unsigned bs = kind_bs(k);
         if (r.chance(1, 150)) nblocks = r.chance(1, 4) ? 4100 + r.below(400) : 100 + r.below(k == P128 ? 560 : 1200);   // rarely a long request (also more than 64 KiB)
-        Op &o = emit(dec && k != PM ? OP_PDEC : OP_PENC, s); o.size = nblocks * bs; o.a = r.bytes(o.size); if (k == PM) o.b = r.bytes(o.size);
+        Op &o = emit(dec && k != PM ? OP_PDEC : OP_PENC, s); o.size = nblocks * bs; o.a = r.bytes(o.size);
+        if (k == PM) {
+            o.b = r.bytes(o.size);
+            switch (r.below(6)) {     // structured tweak arrays: block numbers, sparse, constant
+            case 0: for (unsigned q = 0; q < nblocks; ++q) { memset(&o.b[q * 8], 0, 8); o.b[q * 8 + 7] = (uint8_t)q; o.b[q * 8 + 6] = (uint8_t)(q >> 8); } break;
+            case 1: std::fill(o.b.begin(), o.b.end(), 0); if (nblocks) o.b[r.below(o.size)] = (uint8_t)(1 + r.below(255)); break;
+            case 2: std::fill(o.b.begin(), o.b.end(), r.chance(1, 2) ? 0 : 0xFF); break;
+            default: break;
+            }
+        }
         if (r.chance(1, 3)) o.flags |= F_INPLACE;
     }
     void block(int s, int code = -1) {
@@ -254,6 +274,7 @@ static inline Plan gen_lifecycle(Rng rng, int nops_max, bool rich_before_cleanup
             continue;
         }
         if (rich_before_cleanup && c >= 88 && !q.keyed) { G.valid_key(s, false); continue; }
+        if (G.r.chance(1, 25)) { G.invalid_call(s); continue; }      // a rejected call somewhere in the life of the object
         G.free_step(s, true, 300, false);
     }
     return G.p;
@@ -310,7 +331,9 @@ static inline Plan gen_stream(Rng rng) {
             if (have_ct && G.r.chance(1, 6) && !have_tw) { /* key set after the counter but before any data: still defined */ G.setkey(s, ksize, tweaked, rounds, 1); G.p.ops.back().a = key; }
             unsigned total = G.r.below(4) == 0 ? G.r.below(1200) : G.r.below(4 * G.batch_of(G.g[s]) + 8);
             unsigned done = 0; int frags = 0;
-            while (done < total && frags < 40) { unsigned n = G.data_len(G.g[s], total - done); if (n == 0 && G.r.chance(2, 3)) n = 1 > total - done ? total - done : 1; G.enc(s, n); done += n; ++frags; }
+            while (done < total && frags < 40) {
+                if (G.r.chance(1, 25)) G.invalid_call(s);      // a rejected call in the middle of the stream must not disturb it
+                unsigned n = G.data_len(G.g[s], total - done); if (n == 0 && G.r.chance(2, 3)) n = 1 > total - done ? total - done : 1; G.enc(s, n); done += n; ++frags; }
             if (G.r.chance(1, 5)) G.enc(s, 0);
         }
         if (nobj == 2 && G.r.chance(1, 2)) {
@@ -558,7 +581,8 @@ static inline Plan gen_buffers(Rng rng) {
 
 // C11 (and the digest workloads of C12): a mixture of everything above
 static inline Plan gen_mixture(Rng rng, uint64_t run) {
-    switch (run % 9) {
+    switch (run % 10) {
+    case 9: return gen_errors(rng);
     case 8: return gen_failinit(rng, rng.s % 100000);
     case 0: return (rng.s & 1) ? gen_stream(rng) : gen_packets(rng);
     case 1: return gen_tweak(rng);
